@@ -63,6 +63,8 @@ func (c04) Generate(r *core.Rng, run int, tier string) *core.History {
 	flags.Redefine = r.Bool(.5)
 	flags.NonDet = r.Bool(.6)
 	flags.PrintInFuncs = r.Bool(.8)
+	flags.Catch = r.Bool(.6)
+	flags.GlobalReads = r.Bool(.8)
 	kr := r.Sub("knobs")
 	h := &core.History{Cfg: map[string]int64{}, Flags: map[string]bool{}}
 	h.Flags["noreg"] = kr.Bool(.3)
